@@ -326,7 +326,9 @@ def classify_recursion(f, call, idx=None):
     args = list(call.args) + [k.value for k in call.keywords]
 
     def is_child(e):
-        # an element obtained by iterating / looking up a container of the current activation
+        # an element obtained by iterating / looking up a container of the current activation (or a field of such an element)
+        while isinstance(e, (ast.Attribute, ast.Subscript)) and not (isinstance(e, ast.Attribute) and isinstance(e.value, ast.Name) and e.value.id == "self"):
+            e = e.value
         if isinstance(e, ast.Name) and e.id in bound:
             return True
         if isinstance(e, ast.Name):
